@@ -50,6 +50,27 @@ UNBOUNDED_WINDOW = (0, 1, -1, 2, -2)
 
 CTX: Optional["Ctx"] = None
 
+# --- optional dump of decided obligations as SMT-LIB2, for re-deciding them with independent solver binaries ---
+DUMP = dict(dir=None, every=0, n=0, written=0, limit=0)
+
+
+def _maybe_dump(solver, negated_property, sat):
+    if not DUMP["dir"]:
+        return
+    DUMP["n"] += 1
+    if DUMP["every"] <= 0 or DUMP["n"] % DUMP["every"] or DUMP["written"] >= DUMP["limit"]:
+        return
+    import os
+
+    solver.push()
+    solver.add(negated_property)
+    text = solver.to_smt2()
+    solver.pop()
+    DUMP["written"] += 1
+    name = "%d_%d_%s.smt2" % (os.getpid(), DUMP["n"], "sat" if sat else "unsat")
+    with open(os.path.join(DUMP["dir"], name), "w") as f:
+        f.write(text)
+
 
 def _decode_z3_string(s: str) -> str:
     """z3 prints non-printable characters as \\u{hex}"""
@@ -543,7 +564,9 @@ class Ctx(BaseCtx):
         t = z3.simplify(z3.Not(term))
         if z3.is_false(t):
             return None
-        if self._check(t):
+        sat = self._check(t)
+        _maybe_dump(self.solver, t, sat)
+        if sat:
             return self.model_dict(self.solver.model())
         return None
 
